@@ -245,6 +245,8 @@ def run_check(engine_name: str, tier: str, runs_override: Optional[int] = None,
     t0 = time.time()
     engine = _load_engine(engine_name)
     seed = base_seed()
+    if hasattr(engine, "prepare"):
+        engine.prepare(tier)
     cfg = dict(engine.tiers[tier])
     n_runs = runs_override if runs_override is not None else int(cfg["runs"])
     cap = wall_cap if wall_cap is not None else float(cfg.get("wall_cap_s", 3600))
@@ -254,9 +256,6 @@ def run_check(engine_name: str, tier: str, runs_override: Optional[int] = None,
     chunks = [list(range(i, min(n_runs, i + chunk))) for i in range(0, n_runs, chunk)]
     print(f"[{engine_name}] tier={tier} seed={seed} runs={n_runs} jobs={nj} repo={os.environ.get('VERIF_REPO', '/repo')}",
           flush=True)
-
-    if hasattr(engine, "prepare"):
-        engine.prepare(tier)
 
     total: Dict[str, Any] = {
         "runs": 0, "stats": collections.Counter(), "distinct": set(), "violations": [],
